@@ -183,8 +183,27 @@ class Spec:
         elif d == 'format::Field':
             pass
 
+    # functions whose contract requires an exact integer -> float conversion (C16: nearest second, exact distance)
+    EXACT_CAST_FNS = {'oracle::Date::add_days', 'oracle::Date::sub_date'}
+
     def on_cast(self, interp, st, rv, a, to):
-        pass
+        if rv['kind'] != 'IntToFloat' or interp.cur_fn not in self.EXACT_CAST_FNS:
+            return
+        lo, hi = st.num.rng(a.form)
+        m = max(abs(lo), abs(hi))
+        ok = m <= (1 << 53)
+        why = ''
+        if not ok:
+            best = 0
+            for k in range(1, 12):
+                if st.num.residue(a.form, 1 << k) == 0:
+                    best = k
+                else:
+                    break
+            ok = (m >> best) <= (1 << 53)
+            why = f"values up to {m} (> 2^53) that are multiples of 2^{best} only: not exactly representable as f64"
+        bbi, sp = interp.cur_site
+        interp.oblige('C-cast', interp.cur_fn, bbi, f"exact int->float conversion of {rv['from']}", sp, ok, st, why)
 
     # ---- calendar kernel: analysed out of line under a precondition, summarised at call sites (K1/K2)
     KERNEL = ('common::julian2date', 'common::date2julian')
@@ -212,10 +231,23 @@ class Spec:
 
     LEXER = "format::FormatParser::<'_>::next"
 
+    # small crate-private helpers analysed on their own with stated argument ranges (C01 calendar rules)
+    HELPERS = {
+        'common::is_leap_year': [('i32', None, None)],
+        'common::days_of_month': [('i32', None, None), ('u32', 1, 12)],
+        'common::the_day_of_year': [('i32', None, None), ('u32', 1, 12), ('u32', 1, 31)],
+        'date::Date::validate_ymd': [('i32', None, None), ('u32', None, None), ('u32', None, None)],
+    }
+
     def internal_roots(self):
         out = [k for k in self.facts.bodies if self.is_assembly(k)]
         if self.LEXER in self.facts.bodies:
             out.append(self.LEXER)
+        for k in self.HELPERS:
+            if k in self.facts.bodies:
+                out.append(k)
+            else:
+                raise AnalysisIncomplete(f"anchor missing: {k}")
         return out
 
     def is_assembly(self, key):
@@ -247,6 +279,9 @@ class Spec:
     def internal_args(self, interp, st, key):
         if key == self.LEXER:
             return self.lexer_args(interp, st)
+        if key in self.HELPERS:
+            body = self.facts.bodies[key]
+            return [interp.fresh_int(st, ty, body['locals'][i + 1]['name'] or f"a{i}", lo, hi) for i, (ty, lo, hi) in enumerate(self.HELPERS[key])]
         body = self.facts.bodies[key]
         ty = body['locals'][1]['ty']
         v = interp.top(st, ty, 'dt', assume_inv=False)
